@@ -481,6 +481,11 @@ def check_c14(tier, seed):
     for k in range(12 if tier == 'quick' else 40):
         n = rng.randint(1, 4)
         c = mk(ck, cfg, {'kind': 'mix', 'seed': rng.randint(1, 99)}, n, (64, 64), oracles={'decode': 0, 'parse': 0, 'order': 0}); c['program'] = c14_program(rng, n, 0, True); c['_gen'] = None; cases.append(c)
+    # the same erroneous call many times in a row, then a normal session: an error return must not consume anything (pool objects, locks, memory)
+    for (op, nul) in [x for x in NULL_OPS if x[0] in ('send', 'get_packet', 'get_recon', 'stream_header', 'stream_info', 'set_param', 'release')]:
+        p = gen.program(3, 'each', recon=True); pos = next(i for i, o in enumerate(p) if o['op'] == ('init' if op == 'set_param' else 'send'))
+        for _ in range(80 if tier == 'quick' else 300): p.insert(pos, {'op': op, 'null': nul, 'max': 1})
+        c = mk(ck, cfg, {'kind': 'mix', 'seed': 5}, 3, (64, 64), oracles={'decode': 0, 'parse': 0, 'order': 0}); c['program'] = p; c['_gen'] = None; c['_repeat'] = 1; cases.append(c); ck.ev.probe('repeated_null_call')
     if tier != 'quick':
         for k in range(40):
             n = rng.randint(1, 4)
@@ -857,18 +862,35 @@ def check_c17(tier, seed):
     ck.ev.components = dict(core.COMPONENTS_ENC, real=core.COMPONENTS_ENC['real'] + core.COMPONENTS_DEC['real']); ck.ev.assumptions = ['a race with no observable effect is invisible to a serialising scheduler']
     variant = 'asan'; core.build(variant); core.build('plain'); rng = ck.rng
     pool = [({'enc_mode': 8, 'logical_processors': 1}, (64, 64)), ({'enc_mode': 8, 'super_block_size': 128, 'logical_processors': 2}, (128, 128)), ({'enc_mode': 7, 'encoder_bit_depth': 10, 'logical_processors': 1}, (64, 64)),
-            ({'enc_mode': 6, 'use_cpu_flags': 0x3f, 'logical_processors': 1}, (72, 66)), ({'enc_mode': 8, 'use_cpu_flags': 0, 'logical_processors': 2}, (64, 64)), ({'enc_mode': 5, 'logical_processors': 4}, (96, 64))]
+            ({'enc_mode': 6, 'use_cpu_flags': 0x3f, 'logical_processors': 1}, (72, 66)), ({'enc_mode': 8, 'use_cpu_flags': 0, 'logical_processors': 2}, (64, 64)), ({'enc_mode': 5, 'logical_processors': 4}, (96, 64)),
+            # different hierarchy depths, prediction structures and slow/fast presets side by side (tables derived per preset and per hierarchy)
+            ({'enc_mode': 8, 'hierarchical_levels': 3, 'logical_processors': 1}, (64, 64)), ({'enc_mode': 4, 'logical_processors': 2}, (64, 64)), ({'enc_mode': 6, 'hierarchical_levels': 2, 'logical_processors': 1}, (64, 64)),
+            ({'enc_mode': 7, 'pred_structure': 1, 'logical_processors': 1}, (64, 64)), ({'enc_mode': 3, 'hierarchical_levels': 4, 'logical_processors': 2}, (64, 64))]
     st = make_streams(['base8', 'wide64', 'ten', 'tiles1x2'], ck)   # streams the multi-threaded decoder decodes correctly on its own
     def dec_inst():
         nm = rng.choice(sorted(st)); s = st[nm]
         return {'kind': 'dec', 'stream': s['path'], 'w': s['w'], 'h': s['h'], 'bd': s['bd'], 'threads': rng.choice([1, 1, 2, 4]), 'delay': rng.choice([0, 0, 200, 1500, 6000]), '_stream': nm, 'sessions': rng.choice([1, 1, 2])}
     fams = []
     nfam = 16 if tier == 'quick' else 48
-    for k in range(nfam):
+    fixed = [  # mutation-sensitive fixed families: two encoders that are inside the same stage (TPL, temporal filtering, restoration search, mode decision) at the same time
+        [({'enc_mode': 8, 'hierarchical_levels': 3, 'logical_processors': 1}, (64, 64), 10), ({'enc_mode': 8, 'hierarchical_levels': 3, 'logical_processors': 1}, (64, 64), 10)],
+        [({'enc_mode': 6, 'hierarchical_levels': 3, 'logical_processors': 2}, (64, 64), 9), ({'enc_mode': 8, 'logical_processors': 1}, (72, 66), 18)],
+        [({'enc_mode': 7, 'hierarchical_levels': 3, 'logical_processors': 1, 'encoder_bit_depth': 10}, (64, 64), 9), ({'enc_mode': 5, 'hierarchical_levels': 2, 'logical_processors': 2}, (64, 64), 6)],
+        [({'enc_mode': 8, 'hierarchical_levels': 3, 'logical_processors': 1}, (64, 64), 9), ({'enc_mode': 4, 'logical_processors': 2}, (64, 64), 17)],
+    ]
+    for k in range(nfam + len(fixed)):
+        if k >= nfam:
+            insts = [inst(cfgo, {'kind': 'moving', 'seed': 30 + k + j}, n, wh, delay=0, tail_delay=0) for j, (cfgo, wh, n) in enumerate(fixed[k - nfam])]
+            sim = {'policy': 'rand', 'sw': 300, 'seed': 1000 + k}
+            conc = {'world': 'multi', 'instances': insts, 'sim': sim, 'machine': {'cores': 4, 'sockets': 1}, 'oracles': {'decode': 0, 'parse': 0, 'seg_events': 0}, '_ndec': 0, '_fixed': 1}
+            solos = [{'world': 'enc', 'cfg': it['cfg'], 'content': it['content'], 'program': [o for o in it['program'] if o['op'] != 'yield'], 'sim': {'policy': 'np', 'seed': 1}, 'machine': {'cores': 4, 'sockets': 1}, 'oracles': {'decode': 0, 'parse': 0, 'order': 0}} for it in insts]
+            for fp in (2000, 600):   # the same family at two preemption densities
+                cc = copy.deepcopy(conc); cc['_fine'] = fp; fams.append(copy.deepcopy(solos) + [cc])
+            ck.ev.probe('mix:ee(fixed)'); continue
         mix = ['ee', 'ed', 'dd', 'ee', 'eed', 'edd', 'ee', 'ed', 'ed', 'ee', 'eed', 'ed'][k % 12] if st else 'ee'
         m = len(mix); picks = rng.sample(pool, mix.count('e')); insts = []
         for (cfgo, wh) in picks:
-            n = rng.randint(2, 6)
+            n = rng.randint(2, 6) if k % 3 else rng.randint(17, 20)
             insts.append(inst(cfgo, {'kind': rng.choice(['mix', 'moving']), 'seed': rng.randint(1, 99)}, n, wh, delay=rng.choice([0, 0, 200, 1500, 4000, 9000]), tail_delay=rng.choice([0, 0, 500, 3000])))
         for _ in range(mix.count('d')): insts.append(dec_inst())
         rng.shuffle(insts)
@@ -886,8 +908,8 @@ def check_c17(tier, seed):
     # inside code that contains no synchronisation operation at all (e.g. a kernel working on process-global scratch memory)
     core.build('fine'); fvar = []
     for k, fam in enumerate(fams):
-        fv = 'fine' if k % 2 == 0 else variant; fvar.append(fv)
-        if fv == 'fine': fam[-1]['sim'] = dict(fam[-1]['sim'], fine=rng.choice([2000, 8000, 30000])); ck.ev.fault('fine_preemption')
+        fv = 'fine' if (k % 2 == 0 or fam[-1].get('_fixed')) else variant; fvar.append(fv)
+        if fv == 'fine': fam[-1]['sim'] = dict(fam[-1]['sim'], fine=fam[-1].get('_fine') or rng.choice([2000, 8000, 30000])); ck.ev.fault('fine_preemption')
     flat = [(c, fv) for f, fv in zip(fams, fvar) for c in f]
     rs = pmap(lambda cv: run_case(cv[0], cv[1]), flat, variant=variant); i = 0
     for fam, variant in zip(fams, fvar):
